@@ -81,7 +81,7 @@ theorem cr_reference_read_back :
 /-- `<Key>a CR LF b</Key>` (the witness `w-eol`, inside `<Tag>` there) -/
 def docEol : Bytes := [60, 75, 101, 121, 62, 97, 13, 10, 98, 60, 47, 75, 101, 121, 62]
 
-/-- F-xml-9 (`xml-eol-not-normalised`, FIXED by eab498c): a literal CR LF in character data denotes one LF
+/-- F-xml-9 (`xml-eol-not-normalised`, FIXED by d365e05): a literal CR LF in character data denotes one LF
 (XML 1.0 §2.11) … -/
 theorem eol_meaning : (match XmlSpec.charData [97, 13, 10, 98] with | .ok s => s == [97, 10, 98] | _ => false) = true := by
   decide
